@@ -66,6 +66,8 @@ type FuncContract struct {
 	Safety   []string // property tags under which panic-freedom obligations are claimed
 	Scenario   string // name of a scenario battery under /verif/scenarios replayed when an obligation of this function fails
 	ChanTags   []string
+	Shared     []string // names of results that are shared with other goroutines / parameters that accept shared values
+	SharedTags []string
 	ChanResult string // the result is the channel whose ghost log is named by this counter (`yields log N`)
 	Owns     []string // property tags under which hand-over obligations ([]byte sent on a channel is not written afterwards) are claimed
 	Term     []string // property tags for termination (decreases) obligations
@@ -358,7 +360,7 @@ func matchParen(s string, i int) int {
 var topKeywords = map[string]bool{"func": true, "closure": true, "spec": true, "lemma": true, "interface": true,
 	"field": true, "chan": true, "ghost": true, "axiom": true, "global": true, "ghostfield": true, "unscoped": true, "chanlog": true, "callguard": true, "extern": true, "rule": true, "bounded": true, "group": true}
 
-var clauseKeywords = map[string]bool{"requires": true, "ensures": true, "modifies": true, "safety": true, "pure": true,
+var clauseKeywords = map[string]bool{"requires": true, "ensures": true, "shared": true, "modifies": true, "safety": true, "pure": true,
 	"inline": true, "may_panic": true, "witness": true, "lemma": true, "role": true, "holds": true, "acquires": true,
 	"decreases": true, "loop": true, "invariant": true, "unfold": true, "method": true, "reads": true, "trusted": true,
 	"assumed": true, "terminates": true, "call": true, "hint": true, "anchor": true, "reveal": true, "assert": true, "after": true, "forall": true, "inst": true, "callback": true, "assumes": true, "epilogue": true, "set": true, "handover": true, "yields": true, "scenario": true}
@@ -606,6 +608,15 @@ func (cs *Contracts) parseFuncClauses2(fc *FuncContract, loop *LoopSpec, call *C
 		}
 		fc.ChanResult = f[1]
 		fc.ChanTags = tags
+	case "shared":
+		// shared[tags] name: a result of that name may be used by other goroutines at the same
+		// time (it must only flow to pure code or to parameters declared shared); a parameter of
+		// that name accepts such a value
+		tags, _, body := parseTagged(rest)
+		for _, n := range strings.Fields(strings.ReplaceAll(body, ",", " ")) {
+			fc.Shared = append(fc.Shared, n)
+		}
+		fc.SharedTags = append(fc.SharedTags, tags...)
 	case "scenario":
 		fc.Scenario = strings.TrimSpace(rest)
 	case "handover":
